@@ -235,7 +235,56 @@ class Gen:
         return out
 
 
+def timer_free(ops: list) -> list:
+    """uvloop has no virtual clock: strip everything that depends on time"""
+    out = []
+    for op in ops:
+        k = op[0]
+        if k == "sleep":
+            out.append(["cp", 2])
+        elif k in ("deadline", "probe"):
+            continue
+        elif k == "scope":
+            out.append(["scope", op[1], op[2], None, timer_free(op[4])])
+        elif k == "tscope":
+            out.append(["scope", op[1], op[4], None, timer_free(op[5])])
+        elif k == "group":
+            out.append(["group", op[1], [dict(c, body=timer_free(c["body"])) for c in op[2]],
+                        timer_free(op[3])])  # fmt: skip
+        elif k in ("spawn", "startcall"):
+            out.append([k, op[1], dict(op[2], body=timer_free(op[2]["body"]))])
+        elif k == "cleanup":
+            out.append(["cleanup", timer_free(op[1]), op[2], op[3]])
+        elif k == "catch_then":
+            out.append(["catch_then", timer_free(op[1]), timer_free(op[2])])
+        elif k == "catch_mix":
+            out.append(["catch_mix", timer_free(op[1]), op[2]])
+        else:
+            out.append(op)
+
+    return out
+
+
+def for_uvloop(program: dict) -> dict:
+    agents = []
+    for ag in program["agents"]:
+        if ag["do"][0] == "deadline":
+            continue
+
+        ag = dict(ag)
+        if "t" in ag:
+            ag["at"] = int(ag.pop("t") * 4) + 3
+
+        agents.append(ag)
+
+    return dict(program, cfg="uvloop", root=timer_free(program["root"]), agents=agents)
+
+
 def gen(rng: random.Random, profile: str, cfgs: list[str]) -> dict:
     g = Gen(rng, profile)
     root = g.body(0, [], top=True)
-    return {"cfg": rng.choice(cfgs), "root": root, "agents": g.agents(), "profile": profile}
+    p = {"cfg": rng.choice(cfgs), "root": root, "agents": g.agents(), "profile": profile}
+    if p["cfg"] == "uvloop":
+        p = for_uvloop(p)
+
+    return p
